@@ -23,7 +23,6 @@ package main
 import (
 	"fmt"
 	"math"
-	"os"
 	"sort"
 	"strings"
 	"sync"
@@ -256,7 +255,20 @@ var ruleTypes = []string{models.ShardHash, models.ShardMod, models.ShardRange, m
 // ---------------------------------------------------------------- features of a configuration
 
 func features(c cvec) map[string]string {
-	f := map[string]string{"type": c.Type, "neg_location": "no", "case_dup": "no", "default_slice": "existing"}
+	f := map[string]string{"type": c.Type, "neg_location": "no", "case_dup": "no", "default_slice": "existing",
+		"dup_db_cfg": "no", "rule_slices_gt_ns": "no"}
+	if dbs, err := router.GetRealDatabases(c.Databases); err == nil {
+		seen := map[string]bool{}
+		for _, d := range dbs {
+			if seen[d] {
+				f["dup_db_cfg"] = "yes" // the configured databases list names a database twice
+			}
+			seen[d] = true
+		}
+	}
+	if len(c.Slices) > c.NsSlices {
+		f["rule_slices_gt_ns"] = "yes" // the rule's slices list is longer than the namespace's (a slice is repeated)
+	}
 	for _, l := range c.Locations {
 		if l < 0 {
 			f["neg_location"] = "yes"
@@ -395,7 +407,10 @@ func inspect(r *ev.Run, c cvec) (*verdict, string) {
 					return &verdict{"db_map", fmt.Sprintf("table %s (%s): index %d has no physical database (%v %v)", sh.Table, sh.Type, idx, derr, p), nil}, ""
 				}
 				cell += "/" + db
-				if phys[sname+"/"+db] {
+				// a global table without a databases list is "the same table in the logical database on every
+				// slice"; the repository's own sample configuration gives it locations [2,2], i.e. lists every
+				// (slice, database) twice. That duplication is by design of the format, not checked here.
+				if phys[sname+"/"+db] && !(sh.Type == models.ShardGlobal && len(sh.Databases) == 0) {
 					return &verdict{"duplicate_database", fmt.Sprintf("table %s (%s): physical database %s on %s is listed twice (databases %v)", sh.Table, sh.Type, db, sname, sh.Databases), nil}, ""
 				}
 				phys[sname+"/"+db] = true
@@ -428,9 +443,6 @@ func inspect(r *ev.Run, c cvec) (*verdict, string) {
 // loadNamespace runs the proxy's own constructor for a namespace (slices, users, charset,
 // default physical databases, router, sequences) and releases it again.
 func loadNamespace(c cvec) *verdict {
-	if os.Getenv("C10_SKIP_NS") != "" {
-		return nil
-	}
 	var sn *server.Namespace
 	var err error
 	if p := ev.Catch(func() { sn, err = server.NewNamespace(c.namespace(), "") }); p != nil {
@@ -450,6 +462,7 @@ func runOne(r *ev.Run, c cvec, sample bool) {
 	if p := ev.Catch(func() { verr = ns.Verify() }); p != nil {
 		r.Add("verify_panics", 1)
 		r.Distinct("verify_panics", fmt.Sprintf("%s|%.60v", c.Type, p))
+		notePanic(fmt.Sprintf("%s: %.80v", c.Type, p), c)
 		return
 	}
 	if verr != nil {
@@ -475,8 +488,8 @@ func runOne(r *ev.Run, c cvec, sample bool) {
 	for k, val := range v.extra {
 		f[k] = val
 	}
-	noteClass(fmt.Sprintf("%s reason=%s keyclass=%s fn_rule=%s neg_location=%s case_dup=%s default_slice=%s", v.kind, f["reason"], f["keyclass"], f["fn_rule"],
-		f["neg_location"], f["case_dup"], f["default_slice"]))
+	noteClass(fmt.Sprintf("%s rule=%s reason=%s keyclass=%s neg_location=%s case_dup=%s default_slice=%s dup_db_cfg=%s rule_slices_gt_ns=%s", v.kind,
+		f["fn_rule"], f["reason"], f["keyclass"], f["neg_location"], f["case_dup"], f["default_slice"], f["dup_db_cfg"], f["rule_slices_gt_ns"]))
 	r.Violation(ev.Witness{Summary: fmt.Sprintf("accepted by Verify, then %s: %s  [%s]", v.kind, v.msg, describe(c)), Features: f, Case: c})
 }
 
@@ -484,6 +497,18 @@ var (
 	classMu sync.Mutex
 	classes = map[string]int{}
 )
+
+var panicEx = map[string]cvec{}
+
+// notePanic keeps one example configuration per distinct panic inside Namespace.Verify (an observation:
+// such a configuration is not "accepted", so the property says nothing about it).
+func notePanic(k string, c cvec) {
+	classMu.Lock()
+	if _, ok := panicEx[k]; !ok {
+		panicEx[k] = c
+	}
+	classMu.Unlock()
+}
 
 // noteClass counts violations per mechanism class (reported in coverage.violation_classes).
 func noteClass(s string) {
@@ -556,6 +581,7 @@ func main() {
 		r.Capped(fmt.Sprintf("time budget reached after %d of %d configurations", done, len(all)))
 	}
 	r.Set("violation_classes", classes)
+	r.Set("verify_panic_examples", panicEx)
 	r.Set("universe_configurations", len(all))
 	r.Set("configurations_per_rule_type", perType)
 	r.Set("max_deviations_from_base", k)
